@@ -6,7 +6,10 @@
 (*     multi-word keywords contain exactly one space);                         *)
 (*   - ordered choice, no backtracking into a choice that succeeded;           *)
 (*   - literal sets are tried longest first;                                   *)
-(*   - identifiers are maximal runs of letters, digits and '_'.                *)
+(*   - identifiers are maximal runs of letters, digits and '_';                *)
+(*   - a number is read digit by digit and filler is skipped after every digit *)
+(*     taken, so digits separated only by filler form one number ("1 2" is 12: *)
+(*     the package's lexical convention, transcribed, FROZEN-FROM-IMPL).       *)
 (* Result: a syntax tree (rule nodes [n, c], string leaves [s], integer leaves *)
 (* [i]) after consuming the whole text, or the furthest failure position.      *)
 EXTENDS RingGrammar, Text
@@ -17,7 +20,11 @@ SkipF(txt, p) == IF p <= Len(txt) /\ IsFill(txt[p]) THEN SkipF(txt, p + 1) ELSE 
 TakeN(txt, p, n) == SkipF(txt, p + n)
 IsIdent(c) == IsAlphaCode(c) \/ IsDigitCode(c) \/ c = 95
 LitAt(txt, p, lit) == p + Len(lit) - 1 <= Len(txt) /\ SubSeq(txt, p, p + Len(lit) - 1) = lit
-RECURSIVE IdentEnd(_, _), DigitsEnd(_, _)
+RECURSIVE IdentEnd(_, _), DigitsEnd(_, _), NumScan(_, _, _)
+\* p is at a digit: [p |-> position after the number and its filler, ds |-> the digits]
+NumScan(txt, p, acc) == LET q == SkipF(txt, p + 1) IN
+  IF q <= Len(txt) /\ IsDigitCode(txt[q]) THEN NumScan(txt, q, Append(acc, txt[p]))
+  ELSE [p |-> q, ds |-> Append(acc, txt[p])]
 IdentEnd(txt, p) == IF p < Len(txt) /\ IsIdent(txt[p + 1]) THEN IdentEnd(txt, p + 1) ELSE p
 DigitsEnd(txt, p) == IF p < Len(txt) /\ IsDigitCode(txt[p + 1]) THEN DigitsEnd(txt, p + 1) ELSE p
 
@@ -55,8 +62,7 @@ PP(txt, node, p) ==
     [] node.t = "dig" -> IF p <= Len(txt) /\ IsDigitCode(txt[p])
                          THEN POk(TakeN(txt, p, 1), <<IntLeaf(txt[p] - 48)>>, 0) ELSE PFail(p)
     [] node.t = "num" -> IF p <= Len(txt) /\ IsDigitCode(txt[p])
-                         THEN LET e == DigitsEnd(txt, p) IN
-                              POk(TakeN(txt, p, e - p + 1), <<IntLeaf(DecValue(SubSeq(txt, p, e)))>>, 0)
+                         THEN LET r == NumScan(txt, p, <<>>) IN POk(r.p, <<IntLeaf(DecValue(r.ds))>>, 0)
                          ELSE PFail(p)
     [] node.t = "eos" -> IF p > Len(txt) THEN POk(p, <<>>, 0) ELSE PFail(p)
 
